@@ -307,6 +307,7 @@ var c03Fixed = []string{
 	"(struct (f - (ptr (struct (f - (ptr raw))))))",
 	"(struct (f - (ptr (struct (f - raw) (f - i32)))))",
 	"(struct (f - (arr 8)) (f - (arr 9)) (f - (arr 0)))",
+	"(struct (f - int) (f - (arr 6)))", "(struct (f - (arr 14)) (f - (arr 22)) (f - (arr 5)) (f - (arr 7)))", "(struct (f - (arr 1)) (f - (arr 2)) (f - (arr 3)) (f - (arr 4)))",
 	"(struct (f - (slice (ptr i32))) (f - (slice (ptr (struct (f - bool))))))",
 }
 
@@ -352,6 +353,7 @@ func c03() {
 		pRoundTrip(t, v)
 		pEnc(t, v)
 	}
+	c03Fixed2(40)
 }
 
 func c16() {
@@ -384,6 +386,7 @@ func c16() {
 			}
 		}
 	}
+	c16TopLevel(30)
 }
 
 func guardedSize(x any) (n int) {
@@ -487,6 +490,12 @@ func c07() {
 					// the field is tag ++ varint(len(val)) ++ val: rebuild it with another length
 					lenSize := len(proto.AppendVarint(nil, 1, uint64(len(val)))) - 1
 					tagSize := flen - lenSize - len(val)
+					for _, extra := range []int{1, 4, 9, 40} { // a longer payload, correctly framed
+						longer := append(append([]byte(nil), val...), rndBytes(extra)...)
+						lv := proto.AppendVarint(nil, 1, uint64(len(longer)))[1:]
+						mut := append(append(append(append([]byte(nil), b[:off+tagSize]...), lv...), longer...), m...)
+						pDecode(t, mut)
+					}
 					for _, l := range []uint64{uint64(len(val)) + 1, 1 << 31, 1<<32 + 3, 1 << 62, 1 << 63, 1<<63 + 5, ^uint64(0), ^uint64(0) - 9} {
 						lv := proto.AppendVarint(nil, 1, l)[1:]
 						mut := append(append(append(append([]byte(nil), b[:off+tagSize]...), lv...), val...), m...)
